@@ -298,6 +298,16 @@ def run(ctx):
     ctx.rule("coll.dispatch", d, floor=12, note="protocol-parameterised default methods (3 flavours x read/write) and expect_*_message_protocol helpers")
     a = check_assoc(ctx, F, impls)
     ctx.rule("coll.assoc", a, floor=75, note="normalised VersionK associated types vs the payload types of version K's opcode enums")
+    # the opcode-level protocol readers (version_8::opcodes::*OpcodeMessage::*read_protocol) choose the message from the opcode
+    # table and must hand their own protocol_version on (rule shared with C01)
+    from .. import opcodes
+    from ..world import LOGIN_SCOPES
+    o = 0
+    for scope, crate, mod, ver in LOGIN_SCOPES:
+        if ver == max(v for _, _, _, v in LOGIN_SCOPES):
+            for side, kinds in (("Client", ("clogin",)), ("Server", ("slogin",))):
+                o += opcodes.check_enum(ctx, "opc.table", crate, f"{mod}::opcodes::{side}OpcodeMessage", opcodes.LOGIN_READERS, scope, kinds, True)
+    ctx.rule("opc.table", o, floor=100, note="arms of the collective opcode enums' read / read_protocol functions (3 flavours) against the wowm opcodes; protocol_version handed on unchanged")
     ctx.analysed.update({"families": len(impls), "shape_cases": cases})
     ctx.sample({"families": sorted(short_ty(i["self_ty"]) for i, _ in impls)})
     ctx.assume("canonical values only: a generated flag struct's raw bits equal the members present (plus symbolic bits of member-less enumerators); "
